@@ -33,7 +33,7 @@ def holdsS : SSt → Bool
   | _ => false
 
 def holdsP : MPc → Bool
-  | .cC | .cU | .dInfU | .pollU _ | .finU _ | .sFlagUA | .sFlagU | .sChkU | .jU _ | .jUnone | .p5U | .rsU | .stU | .kC | .kU => true
+  | .cC | .cU | .dInfU | .pollU _ | .finU _ | .sFlagUA _ | .sFlagU | .sChkU | .jU _ | .jUnone | .p5U | .rsU | .stU | .kC | .kU => true
   | .inCall c => holdsCall c
   | _ => false
 
